@@ -13,6 +13,10 @@ def _tiling_vc(vc):
     return vc.kind == "ghost-assert" and ("loop[4].before" in vc.name or "loop[4.0].before" in vc.name)
 
 
+def _tiling_vc_laplace(vc):
+    return vc.kind == "ghost-assert" and ("loop[3].before" in vc.name or "loop[3.0].before" in vc.name)
+
+
 def check(run):
     out = N.check_kernel_suffix(run, vc_filter=_tiling_vc)
     if out is not None:
@@ -23,9 +27,17 @@ def check(run):
         if not renamed:
             run.undecided_ob("C11/native/job-tiling", "cppvc", "vcgen", "no tiling obligations were generated: contract no longer binds")
         N.report(run, renamed, on_failed=_on_failed)
+    out = N.check_laplace(run, vc_filter=_tiling_vc_laplace)
+    if out is not None:
+        res, _ = out
+        renamed = {name.replace("/ghost-assert/", "/C11-job-tiling/"): v for name, v in res.items()}
+        if not renamed:
+            run.undecided_ob("C11/native/job-tiling-laplace", "cppvc", "vcgen", "no tiling obligations were generated: contract no longer binds")
+        N.report(run, renamed, on_failed=_on_failed)
     bounded(run)
     run.assume("C11/native: equality of the SET of addends for every job count is proved (tiling + counter state is a function of the "
-               "offset, assumed contract of the Gray counter); bitwise equality of the floating sum is not claimed")
+               "offset: the counter's constructor and next() are verified against the class invariant offset = mixed-radix value of the digits, "
+               "contracts/C04_gray.py); bitwise equality of the floating sum is not claimed")
 
 
 def _on_failed(vc, r):
@@ -44,7 +56,7 @@ def bounded(run):
     rng = np.random.default_rng(run.seed + 11)
     fails, ev, distinct = [], 0, set()
     counts = [0, 1, 2, 3, 5, 7, 16, 33, 64] if run.tier == "quick" else list(range(0, 65)) + [2 ** 30, 2 ** 32 - 1]
-    for rows, cols in (((2, 3), (4, 1)), ((1, 2, 2), (2, 2, 1)), ((6, 6), (6, 6)), ((3, 0, 4), (1, 5, 1)), ((1,), (1,)), ((9, 1), (5, 5))):
+    for rows, cols in (((2, 3), (4, 1)), ((1, 2, 2), (2, 2, 1)), ((6, 6), (6, 6)), ((3, 0, 4), (1, 5, 1)), ((1,), (1,)), ((9, 1), (5, 5)), ((2, 2, 2, 2, 1), (3, 2, 2, 1, 1))):
         n = len(rows)
         A = rng.normal(size=(n, n)) + 1j * rng.normal(size=(n, n))
         for laplace in (False, True):
@@ -65,5 +77,5 @@ def bounded(run):
                    what=f"kernel value depends on the number of jobs: {fails[0]}", counterexample=fails[0],
                    replay={"kind": "threads"}, reproduced=True, observed={"failures": fails[:6]})
     run.bounded_result("C11/native/forced-hardware_concurrency", domain="permanent_cpp / permanent_laplace_cpp compiled from /repo/src with "
-                       "std::thread::hardware_concurrency interposed", bound=f"{len(counts)} forced values incl. 0; 6 multiplicity patterns; tol 1e-11",
+                       "std::thread::hardware_concurrency interposed", bound=f"{len(counts)} forced values incl. 0; 7 multiplicity patterns; tol 1e-11",
                        evaluations=ev, distinct=len(distinct), failures=len(fails))
